@@ -189,8 +189,23 @@ def build_harness():
         shutil.copy(lock_src, lock_dst)
     rc, out = sh('cargo build --offline --release', cwd=HARNESS, timeout=1500)
     if rc != 0:
-        # /repo does not compile with the hooks on: nothing can be checked
-        raise Infra('harness build failed (does /repo compile?):\n' + out[-3000:])
+        # the hooks that call crate-internal functions no longer compile (one of those functions was renamed or changed its
+        # signature): build with the trace recorder only - S1 / S2 / S5 / S6 / S7 / c07 still tie the model to this source;
+        # S8, the dispatch part of S3, steering and deeppath cannot run and are reported as degraded
+        rc2, out2 = sh('cargo build --offline --release --no-default-features', cwd=HARNESS, timeout=1500)
+        if rc2 != 0:
+            # /repo does not compile with the hooks on: nothing can be checked
+            raise Infra('harness build failed (does /repo compile?):\n' + out[-3000:])
+
+
+def hooks_ext():
+    """were the extension hooks (dispatch, hand-built states, single emissions) compiled into the harness?"""
+    p = subprocess.run([HBIN, 'hooks'], stdout=subprocess.PIPE, stderr=subprocess.PIPE, text=True, env=ENV)
+    return p.stdout.strip() == 'ext'
+
+
+def degraded_result(name, why):
+    return dict(ok=[], diffs=[], props=[], stats={}, ncases=0, okn=0, nops=0, specs={}, samples=[], degraded=why)
 
 
 # ----------------------------------------------------------------------------- PRNG for case generation
@@ -536,6 +551,8 @@ def steer_search(res, log, limit=16, s8res=None):
     inputs - rebuild the simulated state from scratch with a minimal opcode path (compiled by the model into fuzzer bytes),
     make the implementation pick exactly that opcode next, let it finish, and judge the output with all oracles.
     Returns parse_verdicts-style props (concrete failing inputs) and the specs of the new cases."""
+    if not hooks_ext():
+        return [], {}
     norm = lambda n: n.replace('_', '').lower()
     tmp = os.path.join(BUILD, 'steer')
     os.makedirs(tmp, exist_ok=True)
@@ -1366,7 +1383,7 @@ def run_s9(seed, tier, log):
     # the same shapes applied to the implementation DIRECTLY (hooks emit_one / valid_opcodes / finish): nobody's candidate list
     # decides the next opcode, so a change of the guards cannot derail the path; the guards are evaluated on the way
     nd = 100000 if tier == 'quick' else 1000000
-    for v, ss in shapes.items():
+    for v, ss in (shapes.items() if hooks_ext() else []):
         for sh_ in ss:
             sh_ = sh_.replace('*%d' % n, '*%d' % nd)
             p = subprocess.run([HBIN, 'deeppath', str(v), '2048', sh_], stdout=subprocess.PIPE, stderr=subprocess.PIPE, env=ENV, timeout=900, text=True)
@@ -1718,6 +1735,9 @@ def gen_s8_cases(seed, tier):
 def run_s8(seed, tier, log):
     """S8: bounded-exhaustive one-step comparison (see gen_s8_cases) - the hand-written Sim.v / Gen.v against
     can_emit + utils.rs, emit_and_process + process_stack_ops and cleanup_for_stop on states built directly in the implementation"""
+    if not hooks_ext():
+        log('s8: skipped - the harness was built without the extension hooks (they no longer compile against this source)')
+        return degraded_result('s8', 'extension hooks do not compile against this source')
     cases = gen_s8_cases(seed, tier)
     key = hashlib.sha256(('%s|%s|%d|%s|s8' % (repo_hash(), model_hash(), seed, tier)).encode()).hexdigest()[:24]
     d = os.path.join(CACHE, key)
@@ -1891,7 +1911,12 @@ def run_ref(seed, tier, log):
 
 
 def run_s3(seed, tier, log):
-    return run_lines_suite('s3', 'adapt', 's3', gen_s3_cases(seed, tier), seed, tier, log)
+    cases = gen_s3_cases(seed, tier)
+    if not hooks_ext():
+        n0 = len(cases)
+        cases = [c for c in cases if not re.search(r'ops=(\S*;)?d[ifsbm]:', c)]
+        log('s3: %d dispatch cases skipped - the harness was built without the extension hooks' % (n0 - len(cases)))
+    return run_lines_suite('s3', 'adapt', 's3', cases, seed, tier, log)
 
 
 def run_s5(seed, tier, log):
